@@ -19,7 +19,7 @@ from .C15 import defgrad
 PROP = "C20"
 
 EVIDENCE = {
-    "probes_expected": ["frames-compared", "early-stop-file-read-back", "roundtrip-compared", "save-compared", "merged-container-read", "custom-data-compared", "fault:h5_create_fail", "fault:disk_full"],
+    "probes_expected": ["frames-compared", "early-stop-file-read-back", "roundtrip-compared", "save-compared", "merged-container-read", "custom-data-compared", "fault:h5_create_fail", "fault:disk_full", "second-job-compared"],
     "components": {
         "real": ["felupe (from /repo/src)", "numpy", "scipy incl. SuperLU", "meshio writers/readers", "h5py/HDF5 on a real scratch file"],
         "simulated": ["h5py.File proxy (fails on the n-th create_dataset / on close)", "linear solver fault layer", "job callback and data callables", "clock"],
@@ -55,6 +55,8 @@ def generate(seed, tier, k):
             "point_default": r.random() < 0.85,
             "cell_default": r.random() < 0.85,
             "stem": r.choice(["result", "out.put", "a"]),
+            "override_default": r.random() < 0.3,
+            "second_job": r.random() < 0.3,
         }
         return doc
     fam = r.choice(["linear", "quadratic", "full", "simplex", "simplex2"])
@@ -252,6 +254,13 @@ def run_job(doc, log):
         return [a]
 
     point_data = {"Nodal Norm": my_point} if (opts.get("custom_point") or any(f["where"] == "point" for f in data_fault)) else None
+    override = bool(opts.get("override_default")) and point_data is not None and opts.get("point_default", True)
+
+    def my_disp(field, substep):
+        return 1000.0 * np.pad(field[0].values, ((0, 0), (0, 3 - field[0].values.shape[1])))
+
+    if override:
+        point_data["Displacement"] = my_disp
     cell_data = {"Mean J": my_cell} if (opts.get("custom_cell") or any(f["where"] == "cell" for f in data_fault)) else None
     filename = opts.get("stem", "result") + ".xdmf"
     seam = H5Seam(dd.get("faults", []), log, eng.fired)
@@ -329,10 +338,15 @@ def run_job(doc, log):
             raise Violation(PROP, "frame-count-and-order", f"frame {k} carries time {t}", site="file.time", fault=fk)
         cb = eng.callbacks[k]
         u = cb["x"][0]
+        # exactly the requested arrays, nothing left over from anywhere else
+        want_p = set(["Displacement"] if opts.get("point_default", True) else []) | set(point_data or {})
+        want_c = set(["Principal Values of Logarithmic Strain", "Logarithmic Strain", "Deformation Gradient"] if opts.get("cell_default", True) else []) | set(cell_data or {})
+        if set(pd) != want_p or set(cd) != want_c:
+            raise Violation(PROP, "frame-content", f"frame {k} holds point data {sorted(pd)} / cell data {sorted(cd)}, requested {sorted(want_p)} / {sorted(want_c)}", site="file.arrays", fault=fk)
         if opts.get("point_default", True):
             if "Displacement" not in pd:
                 raise Violation(PROP, "frame-content", f"frame {k} has no Displacement", site="file.displacement", fault=fk)
-            want = np.pad(u, ((0, 0), (0, 3 - u.shape[1])))
+            want = np.pad(u, ((0, 0), (0, 3 - u.shape[1]))) * (1000.0 if override else 1.0)
             if not np.array_equal(pd["Displacement"], want):
                 raise Violation(PROP, "frame-content", f"frame {k}: Displacement differs from the displacement field of substep {k} (max {np.abs(pd['Displacement']-want).max():.3e})", site="file.displacement", fault=fk)
         if point_data is not None:
@@ -371,6 +385,23 @@ def run_job(doc, log):
         log.count("frames-compared")
     if exc is not None:
         log.count("early-stop-file-read-back")
+    # a second, independent job with default data only, evaluated later in the same process
+    if opts.get("second_job") and exc is None:
+        d2 = copy.deepcopy(doc)
+        d2["faults"] = []
+        w2 = world.World(d2)
+        job2 = fem.Job(steps=w2.steps)
+        job2.evaluate(filename="second.xdmf", verbose=False)
+        with meshio.xdmf.TimeSeriesReader("second.xdmf") as reader:
+            reader.read_points_cells()
+            n2 = reader.num_steps
+            t, pd2, cd2 = reader.read_data(n2 - 1)
+        if set(pd2) != {"Displacement"} or set(cd2) != {"Principal Values of Logarithmic Strain", "Logarithmic Strain", "Deformation Gradient"}:
+            raise Violation(PROP, "frame-content", f"a later job with default data only wrote point data {sorted(pd2)} / cell data {sorted(cd2)}", site="file.arrays.second-job")
+        u2 = w2.field[0].values
+        if not np.array_equal(pd2["Displacement"], np.pad(u2, ((0, 0), (0, 3 - u2.shape[1])))):
+            raise Violation(PROP, "frame-content", "Displacement written by a later job with default data only is not its displacement field", site="file.displacement.second-job")
+        log.count("second-job-compared")
     return eng, exc, complete
 
 
